@@ -1,6 +1,7 @@
 import WorkflowModel.Model.Routing
 import WorkflowModel.Model.RunState
 import WorkflowModel.Model.Graph
+import WorkflowModel.Model.Engine
 /-! Line-protocol driver for the correspondence check (T3). One command per input line, one answer per
 output line. Core-only imports, so it links as `lean_exe wfdriver`. Unknown commands answer `bad-op`
 (never a default). -/
@@ -71,15 +72,136 @@ def pure (args : List String) : Option String :=
 
 end Drv
 
-partial def loop (h : IO.FS.Stream) (out : IO.FS.Stream) : IO Unit := do
+namespace EngDrv
+open WorkflowModel Engine
+
+def parseProc (t : String) : Option Proc :=
+  match t.splitOn ":" with
+  | ["ob"] => some .outbox
+  | ["del"] => some .delete
+  | ["rty"] => some .retry
+  | ["st", a, b, c] => do some (.step (← a.toInt?) (← b.toInt?) (← c.toInt?))
+  | ["ins", a] => do some (.inserter (← a.toInt?))
+  | ["pol", a] => do some (.poller (← a.toInt?))
+  | ["hk", a] => do some (.hook (← a.toInt?))
+  | _ => none
+
+def parseFault (x : String) : Option (Nat × FaultKind) :=
+  let cs := x.toList
+  match cs.reverse with
+  | k :: rest =>
+    let n := (String.ofList rest.reverse).toNat?
+    let kind := match k with | 'b' => some FaultKind.before | 'a' => some .after | 'c' => some .cancel | _ => none
+    match n, kind with
+    | some n, some kd => some (n, kd)
+    | _, _ => none
+  | [] => none
+
+def parseEnv (fs : List String) : Option Env :=
+  fs.foldlM (fun (env : Env) x =>
+    if x.startsWith "f=" then
+      let v := (x.drop 2).toString
+      if v == "-" then some env else do
+        let l ← (v.splitOn ",").mapM parseFault
+        some { env with faults := l }
+    else if x.startsWith "o=" then
+      let v := (x.drop 2).toString
+      if v == "-" then some env else some { env with outcomes := v.splitOn "," }
+    else if x.startsWith "s=" then do
+      let n ← (x.drop 2).toString.toNat?
+      some { env with stale := n }
+    else none) {}
+
+def parseCall (x : String) : Option BuilderCall :=
+  match x.splitOn ":" with
+  | [k, f, d, p, l, pa] => do
+    let kind ← match k with | "sp" => some CallKind.step | "ck" => some .callback | "tt" => some .timeout | _ => none
+    let ds ← if d == "-" then some [] else (d.splitOn "/").mapM String.toInt?
+    some { kind := kind, src := (← f.toInt?), dests := ds, parallel := (← p.toInt?), lagSec := (← l.toInt?), pauseAfter := (← pa.toInt?) }
+  | _ => none
+
+def parseCfg (fs : List String) : Option Cfg :=
+  fs.foldlM (fun (c : Cfg) kv =>
+    match kv.splitOn "=" with
+    | [k, v] =>
+      match k with
+      | "name" => some c
+      | "calls" => do some { c with calls := (← (v.splitOn ",").mapM parseCall) }
+      | "hooks" => if v == "-" then some c else do some { c with hooks := (← (v.splitOn "/").mapM String.toInt?) }
+      | "cdel" => some { c with customDelete := v == "1" }
+      | "dpar" => do some { c with defParallel := (← v.toInt?) }
+      | "dpause" => do some { c with defPauseAfter := (← v.toInt?) }
+      | "dlag" => do some { c with defLagSec := (← v.toInt?) }
+      | "backoff" => do some { c with backoffSec := (← v.toInt?) }
+      | "olimit" => do some { c with outboxLimit := (← v.toInt?) }
+      | "retry" => some { c with retryEnabled := v == "1" }
+      | "retryafter" => do some { c with retryAfterSec := (← v.toInt?) }
+      | "stamp" => some { c with stamp := v == "1" }
+      | _ => none
+    | _ => none) {}
+
+def parseAct (args : List String) : Option Act :=
+  match args with
+  | "step" :: t :: env => do some (.step (← parseProc t) (← parseEnv env))
+  | ["lease", t] => do some (.lease (← parseProc t))
+  | "trigger" :: f :: st :: n :: env => do some (.trigger (← f.toNat?) (← st.toInt?) (← n.toInt?) (← parseEnv env))
+  | "callback" :: f :: st :: env => do some (.callback (← f.toNat?) (← st.toInt?) (← parseEnv env))
+  | "ctl" :: r :: op :: env => do some (.ctl (← r.toNat?) (← opOfString op) (← parseEnv env))
+  | ["handle", r] => do some (.handle (← r.toNat?))
+  | "hctl" :: h :: op :: env => do some (.hctl (← h.toNat?) (← opOfString op) (← parseEnv env))
+  | ["tick", n] => do some (.tick (← n.toInt?))
+  | ["rewind", t, i] => do some (.rewind (← parseProc t) (← i.toNat?))
+  | ["dup", i] => do some (.dup (← i.toNat?))
+  | _ => none
+
+def digest (s : Sys) : String :=
+  let runs := String.join ((s.runs.zipIdx).map (fun (run, i) =>
+    match run.hist.head? with
+    | some r => s!"r{i}:f{run.fid}:rs{r.runState}:st{r.status}:v{r.version}:o{r.obj}:c{r.createdAt}:u{r.updatedAt} "
+    | none => ""))
+  let ob := ",".intercalate (s.outbox.map (fun o => toString o.ord))
+  let curs := (s.cursors.filter (fun c => c.2 > 0)).map (fun c => (c.1.tok, c.2))
+  let curs := curs.mergeSort (fun a b => a.1 ≤ b.1)
+  let cur := ",".intercalate (curs.map (fun c => s!"{c.1}={c.2}"))
+  let tm := ",".intercalate (s.timers.map (fun t => s!"{t.id}:r{t.runId}:st{t.status}:{t.expireAt}:{if t.completed then 1 else 0}"))
+  let pss := s.pst.filterMap (fun (p, st) => match st with
+    | .needRole => none
+    | .atRecv => some (p.tok, "V")
+    | .atPoll _ => some (p.tok, "P")
+    | .lagWait _ u => some (p.tok, s!"T{u}")
+    | .backoff u => some (p.tok, s!"T{u}"))
+  let pss := pss.mergeSort (fun a b => a.1 ≤ b.1)
+  let ps := ",".intercalate (pss.map (fun c => s!"{c.1}={c.2}"))
+  s!"{runs}ob={ob} log={s.log.length} cur={cur} tm={tm} ps={ps} now={s.now}"
+
+def answer (cfg : Cfg) (s : Sys) (a : Act) : Sys × String :=
+  let out := stepAct cfg s a
+  let obs := if out.obs.isEmpty then "-" else ";".intercalate out.obs
+  (out.sys, s!"{obs} | {out.res} | {digest out.sys}")
+
+end EngDrv
+
+partial def loop (h : IO.FS.Stream) (out : IO.FS.Stream) (cfg : WorkflowModel.Engine.Cfg) (sys : WorkflowModel.Engine.Sys) : IO Unit := do
   let line ← h.getLine
   if line.isEmpty then return ()
   let args := (line.trimAscii.toString.splitOn " ").filter (· ≠ "")
-  let ans := match Drv.pure args with
-    | some s => s
-    | none => "bad-op"
-  out.putStrLn ans
-  out.flush
-  loop h out
+  match args with
+  | "cfg" :: rest =>
+    match EngDrv.parseCfg rest with
+    | some c => out.putStrLn "ok"; out.flush; loop h out c {}
+    | none => out.putStrLn "bad-op"; out.flush; loop h out cfg sys
+  | "act" :: rest =>
+    match EngDrv.parseAct rest with
+    | some a =>
+      let (sys', ans) := EngDrv.answer cfg sys a
+      out.putStrLn ans; out.flush; loop h out cfg sys'
+    | none => out.putStrLn "bad-op"; out.flush; loop h out cfg sys
+  | _ =>
+    let ans := match Drv.pure args with
+      | some s => s
+      | none => "bad-op"
+    out.putStrLn ans
+    out.flush
+    loop h out cfg sys
 
-def main : IO Unit := do loop (← IO.getStdin) (← IO.getStdout)
+def main : IO Unit := do loop (← IO.getStdin) (← IO.getStdout) {} {}
